@@ -30,6 +30,7 @@ def abs_symbols():
         "STRIDEF": UF("STRIDEF", z3.Function("STRIDEF", I, I)),
         "PAR1": UF("PAR1", z3.Function("PAR1", I, I)),
         "ANCX": UF("ANCX", z3.Function("ANCX", I, B)),
+        "KEYF": UF("KEYF", z3.Function("KEYF", I, I)),
     }
 
 
